@@ -525,8 +525,36 @@ def _acyclic(nodes, succ_fn):
     return None
 
 
-def check_structure(scfg: SCFG, flat: Flat | None = None):
+def check_structure(scfg: SCFG, flat: Flat | None = None, g: dict | None = None):
+    """g: the input graph (named), for the clause 'every cycle of the input
+    lies inside a loop region'."""
     flat = flat or Flat(scfg)
+    # a declared back edge is a real edge of its block
+    for k, b in flat.blocks.items():
+        for t in b.backedges:
+            if t not in b._jump_targets:
+                raise Viol("S-backedge-real", f"{k} declares the back edge {t} but has no such jump target ({b._jump_targets})")
+    if g is not None:
+        from .gen_graphs import sccs
+
+        loops = {r: flat.interior(r) for r, rb in flat.regions.items() if rb.kind == "loop"}
+        for comp in sccs(g):
+            if len(comp) == 1 and next(iter(comp)) not in g[next(iter(comp))]:
+                continue
+            if not any(comp <= inside for inside in loops.values()):
+                raise Viol("S-cycle-region", f"the input cycle through {sorted(comp)[:4]} lies inside no loop region")
+            # the cycle still exists among the flattened blocks (with back edges)
+            inner = {k: [flat.resolve(t) for t in flat.blocks[k]._jump_targets] for k in flat.blocks}
+            start = sorted(comp)[0]
+            seen, todo = set(), list(inner[start])
+            while todo:
+                x = todo.pop()
+                if x in seen:
+                    continue
+                seen.add(x)
+                todo.extend(inner.get(x, ()))
+            if start not in seen:
+                raise Viol("S-cycle-lost", f"the input cycle through {start} no longer exists in the flattened result")
     # (a) each level acyclic over jump_targets (back edges dropped)
     for rname, g in _level_graphs(flat):
         cyc = _acyclic(list(g.graph), lambda k: g.graph[k].jump_targets)
